@@ -413,7 +413,29 @@ fn gen_query(rng: &mut Rng, lang: &Language, tree: &Tree, text: &[u8]) -> Option
         // bias towards inner nodes
         let node = if node.child_count() == 0 && rng.chance(2, 3) { node.parent().unwrap_or(node) } else { node };
         let depth = rng.below(3);
-        let body = g.pat(rng, &node, depth.max(if node.child_count() > 0 { 1 } else { 0 }))?;
+        // "late partner": an early, captured, unspecific sibling paired with a specific pattern for
+        // one of the last siblings of a wide parent — many matches stay in progress at once, which
+        // is what makes small match limits steal capture lists.
+        let wide: Vec<&&Node> = named.iter().filter(|n| n.named_child_count() >= 4 && !n.is_error()).collect();
+        let body = if !wide.is_empty() && rng.chance(1, 4) {
+            let p = **rng.pick(&wide);
+            let mut cur = p.walk();
+            let kids: Vec<Node> = p.named_children(&mut cur).collect();
+            let early = &kids[rng.below(kids.len() / 2)];
+            let late = &kids[kids.len() - 1 - rng.below(2)];
+            let a = if early.is_error() { "(ERROR)".to_string() } else if early.is_missing() { "(_)".to_string() } else { format!("({})", early.kind()) };
+            let bd = 1 + rng.below(2);
+            let b = match g.pat(rng, late, bd) {
+                Some(b) => b,
+                None => "(_)".to_string(),
+            };
+            g.used_caps.push("c0".to_string());
+            g.used_caps.push("c1".to_string());
+            g.used_caps.dedup();
+            format!("({} {a} @c0 {b} @c1)", p.kind())
+        } else {
+            g.pat(rng, &node, depth.max(if node.child_count() > 0 { 1 } else { 0 }))?
+        };
         let body = format!("{body} @r");
         // predicates
         let mut preds = String::new();
@@ -725,17 +747,59 @@ fn emit_case(out: &mut impl Write, cid: &str, lang_id: &str, lang: &Language, pa
         st.checks += 2;
     }
     // (d) match limits
-    let nl = if thorough { 4 } else { 2 };
+    let nl = if thorough { 5 } else { 3 };
     for i in 0..nl {
-        let k = *rng.pick(&[1u32, 1, 2, 2, 3, 4, 8, 16, 64]);
+        let k = *rng.pick(&[1u32, 1, 2, 2, 3, 3, 4, 4, 8, 16, 64]);
         let cfg = Cfg { limit: Some(k), ..Cfg::default() };
-        let (l, ex) = run_matches(&mut cur, &q0, &tree, text, &cfg, &mut ids, None);
-        let (lc, exc) = run_captures(&mut cur2, &q0, &tree, text, &cfg, &mut ids, None, None);
+        let (l, ex, lc, exc) = if i % 2 == 0 {
+            let mut fc = QueryCursor::new();
+            let mut fc2 = QueryCursor::new();
+            let (l, ex) = run_matches(&mut fc, &q0, &tree, text, &cfg, &mut ids, None);
+            let (lc, exc) = run_captures(&mut fc2, &q0, &tree, text, &cfg, &mut ids, None, None);
+            (l, ex, lc, exc)
+        } else {
+            let (l, ex) = run_matches(&mut cur, &q0, &tree, text, &cfg, &mut ids, None);
+            let (lc, exc) = run_captures(&mut cur2, &q0, &tree, text, &cfg, &mut ids, None, None);
+            // the same limit on a fresh cursor must give the same stream as on the reused one
+            let mut fc = QueryCursor::new();
+            let (lf, _) = run_matches(&mut fc, &q0, &tree, text, &cfg, &mut ids, None);
+            emit_m(out, &format!("LF{i}"), &lf);
+            emit_m(out, &format!("LR{i}"), &l);
+            writeln!(out, "chk cl LF{i} LR{i} {k}").unwrap();
+            st.checks += 1;
+            (l, ex, lc, exc)
+        };
         emit_m(out, &format!("L{i}"), &l);
         emit_c(out, &format!("LC{i}"), &lc);
         writeln!(out, "chk d U L{i} {} {k} m", if ex { 1 } else { 0 }).unwrap();
         writeln!(out, "chk d UC LC{i} {} {k} c", if exc { 1 } else { 0 }).unwrap();
         st.checks += 2;
+    }
+    // (d') the same patterns WITHOUT the root capture @r: when every state carries the root capture,
+    // all pending states tie on their earliest capture and a state that needs a capture list mostly
+    // finds itself as the steal victim; without it the earliest-capturing *other* state is the victim,
+    // which is the ordinary stealing path of the cursor.
+    let q0nr_text = q0t.replace(" @r)", ")");
+    if let Ok(qn) = Query::new(lang, &q0nr_text) {
+        let (v, _) = run_matches(&mut cur, &qn, &tree, text, &none, &mut ids, None);
+        let (vc, _) = run_captures(&mut cur2, &qn, &tree, text, &none, &mut ids, None, None);
+        emit_m(out, "V", &v);
+        emit_c(out, "VC", &vc);
+        for i in 0..nl {
+            let k = *rng.pick(&[1u32, 2, 2, 3, 3, 4, 4, 5, 6, 8]);
+            let cfg = Cfg { limit: Some(k), ..Cfg::default() };
+            // fresh cursors: a cursor that already allocated more capture lists in an earlier run
+            // keeps using them, so a lower limit set afterwards never bites (see notes/C11.md)
+            let mut fc = QueryCursor::new();
+            let mut fc2 = QueryCursor::new();
+            let (l, ex) = run_matches(&mut fc, &qn, &tree, text, &cfg, &mut ids, None);
+            let (lc, exc) = run_captures(&mut fc2, &qn, &tree, text, &cfg, &mut ids, None, None);
+            emit_m(out, &format!("W{i}"), &l);
+            emit_c(out, &format!("WC{i}"), &lc);
+            writeln!(out, "chk d V W{i} {} {k} m", if ex { 1 } else { 0 }).unwrap();
+            writeln!(out, "chk d VC WC{i} {} {k} c", if exc { 1 } else { 0 }).unwrap();
+            st.checks += 2;
+        }
     }
     // (e) removal mid-stream
     if !uc.is_empty() {
